@@ -953,6 +953,8 @@ def staticLimit(key, max_value):
         def wrapper(*args, **kwargs):
             keep_inds = [copy.deepcopy(ind) for ind in args]
             new_inds = list(func(*args, **kwargs))
+            # only the leading arguments, one per returned tree, are individuals
+            keep_inds = keep_inds[:len(new_inds)]
             for i, ind in enumerate(new_inds):
                 if key(ind) > max_value:
                     new_inds[i] = copy.deepcopy(random.choice(keep_inds))
